@@ -107,7 +107,9 @@ def _judge_html(html, base_skel, where, text, case, what):
     # *some* attribute value (slots that also reach a style attribute) - a renamed CSS class is not a violation
     if cls and text.strip():
         texts = [e[1] for e in evs if e[0] == "text"]
-        if not any(g == text or g.strip() == text.strip() for g in texts):
+        squeeze = lambda t: "".join(t.split())  # noqa: E731
+        # (a value laid out over several lines / text nodes still shows every character once, in order)
+        if not any(g == text or g.strip() == text.strip() for g in texts) and squeeze(text) not in squeeze("".join(texts)):
             near = [g for g in texts if text.strip()[:3] and text.strip()[:3] in g][:3]
             out.append(dict(sig="report/text_not_verbatim", case=case, observed=near, expected=text,
                             msg="%s: the text is not displayed verbatim in any text node (closest: %r)" % (what, near)))
@@ -120,7 +122,7 @@ def _judge_html(html, base_skel, where, text, case, what):
 
 
 # ---------------------------------------------------------------- end-to-end carriers
-def judge_e2e(kind, payload):
+def judge_e2e(kind, payload, _twin=False):
     """Markup carried by values that are still valid CSS / parseable colours, through the public entry points."""
     case = {"kind": "e2e", "carrier": kind, "payload": payload}
 
@@ -181,20 +183,42 @@ def judge_e2e(kind, payload):
         html, gen, slots = _in_tmp(run)
     except Exception as e:  # noqa
         return [dict(sig="report/e2e_raises", case=case, observed=repr(e), msg="%s with %r raised %r" % (kind, payload, e))], False
+    if _twin:
+        return html
     if html is None:
         return [], False  # nothing adjusted -> no report (not this property's business)
+    base = _baseline(gen)
+    if html_tree.skeleton(html_tree.events(html)) != base:
+        # the tool may lay out this *shape* of value differently (say, a grouped selector one part per line): compare with the
+        # report of the benign twin - same value with the markup-significant characters replaced by letters - instead
+        twin = "".join("x" if ch in "<>&" else ch for ch in payload)
+        if twin != payload:
+            try:
+                thtml = _e2e_html(kind, twin)
+            except Exception:  # noqa
+                thtml = None
+            if thtml is not None:
+                base = html_tree.skeleton(html_tree.events(thtml))
     out = []
     for slot, text in slots.items():
         where = (_CLI_WHERE if gen == "cli" else _API_WHERE)[slot]
         if text is None:
             where, text = (None, None), ""
-        out += _judge_html(html, _baseline(gen), where, text, case, "%s carrying %r" % (kind, payload))
+        out += _judge_html(html, base, where, text, case, "%s carrying %r" % (kind, payload))
     return out, True
+
+
+def _e2e_html(kind, payload):
+    """The report text of one end-to-end run (None when no report was written); used for benign twins."""
+    return judge_e2e(kind, payload, _twin=True)
 
 
 E2E = {
     "cli_selector": ['a[title="<script>alert(1)</script>"]', "a[data-x='</div><img src=x onerror=alert(1)>']", 'a[title="&lt;b&gt;"]',
-                     'a[title="\\"><script>"]', "a[x=\"' style='x\"]", ".a\\<b\\>", "a[t=\"`\"]", 'a[title="</style><script>"]'],
+                     'a[title="\\"><script>"]', "a[x=\"' style='x\"]", ".a\\<b\\>", "a[t=\"`\"]", 'a[title="</style><script>"]',
+                     # grouped / compound selectors: the tool may treat a selector list part by part
+                     '.note, a[title="<img src=x onerror=alert(1)>"]', 'a[title="<b>"], .z', 'a[title="<i>,</i>"]',
+                     'ul > li[title="<u>"] + li', 'a:not([t="<p>"])', '.a, .b, i[x="&amp;<s>"]'],
     "cli_filename": ["<b>x", "a&amp;b", "\"'><img src=x onerror=1>", "x style=y", "`x`", "<script>alert(1)<", "&lt;b&gt;"],
     "cli_colour": ["119,119,119<b>", '119 119 119"onmouseover="x', "119,119,119</div><script>x</script>", "119,119,119&lt;"],
     "bulk_colour": ["119,119,119<b>", '119 119 119" onerror="x', "119,119,119</div><script>x</script>", "119,119,119&amp;", "119,119,119'`"],
